@@ -191,7 +191,13 @@ def _rule_objects():
     class Split:  # RZ(a) with |a| > 1 -> RZ(a/2) RZ(a/2): its own output may match it again - a rule is applied ONCE per position in the list, not to a fixed point
         def predicate(self, op): return op.gate.name == "RZ" and abs(float(op.gate.params[0])) > 1
         def production(self, op): return [C.RZ(float(op.gate.params[0]) / 2)(*op.qubit_indices)] * 2
-    return {"A": A(), "B": B(), "H": Hr(), "Z": Zt(), "U3": U3GateToRotation(), "S": Split()}
+    class Drop:  # T -> nothing (an empty production removes the operation; alternately a list, a tuple and an exhausted generator)
+        calls = 0
+        def predicate(self, op): return op.gate.name == "T"
+        def production(self, op):
+            self.calls += 1
+            return [[], (), iter(())][self.calls % 3]
+    return {"A": A(), "B": B(), "H": Hr(), "Z": Zt(), "U3": U3GateToRotation(), "S": Split(), "D": Drop()}
 
 
 RULE_CIRCUITS = [
@@ -250,6 +256,41 @@ def rule_lists_case(case):
     return {"ok": True, "nt": len(case["rules"]) >= 2, "ops": 1, "out": entry}
 
 
+def list_history_case(case):
+    """{'circ': index, 'entry': 'circuit'|'list', 'hist': [[mutation, rule name] ...]}: ONE circuit object and ONE rule-list object; the list is mutated in place
+    (append / insert at the front / reverse / pop / clear) between decompositions: every call applies the list's CURRENT content, in its current order"""
+    from orquestra.quantum.decompositions import decompose_orquestra_circuit, decompose_operations
+    cd = RULE_CIRCUITS[case["circ"]]
+    circ = mk_circuit(cd)
+    R, Rref = _rule_objects(), _rule_objects()
+    rules, names = [], []
+    sig_of = lambda o: (o.gate.name, tuple(o.qubit_indices), tuple(round(float(p), 9) for p in o.gate.params), getattr(getattr(o.gate, "wrapped_gate", None), "name", None))  # noqa: E731
+    k = 0
+    for mut, nm in case["hist"]:
+        if mut == "append":
+            rules.append(R[nm]); names.append(nm)
+        elif mut == "front":
+            rules.insert(0, R[nm]); names.insert(0, nm)
+        elif mut == "reverse":
+            rules.reverse(); names.reverse()
+        elif mut == "pop" and rules:
+            rules.pop(); names.pop()
+        elif mut == "clear":
+            rules.clear(); names.clear()
+        got_ops = list(decompose_orquestra_circuit(circ, rules).operations) if case["entry"] == "circuit" else list(decompose_operations(circ.operations, rules))
+        k += 1
+        exp = list(circ.operations)
+        for n_ in names:
+            nxt = []
+            for o in exp:
+                nxt += list(Rref[n_].production(o)) if Rref[n_].predicate(o) else [o]
+            exp = nxt
+        if [sig_of(o) for o in got_ops] != [sig_of(o) for o in exp]:
+            return {"ok": False, "msg": "call %d with the rule list mutated in place to %s: result is not this list applied in order" % (k, names), "expected": str([str(o) for o in exp]),
+                    "observed": str([str(o) for o in got_ops]), "sig": "rule-lists:history", "ops": k}
+    return {"ok": True, "nt": len(case["hist"]) >= 2, "ops": k, "out": case["entry"]}
+
+
 def protocol_case(case):
     """{'order': how predicate and production calls are interleaved}: a rule is a value: production(op) decomposes THE operation it is given, however many
     predicate / production calls on other operations happened before on the same rule object"""
@@ -286,7 +327,7 @@ def protocol_case(case):
     return {"ok": True, "nt": True, "ops": 5, "out": order}
 
 
-FUNCS = {"protocol": protocol_case, "rule_lists": rule_lists_case, "special_angles": grid_case, "grid": grid_case, "circuits": circuit_case, "circuits_idle": circuit_case, "rules": rules_case}
+FUNCS = {"rule_list_histories": list_history_case, "protocol": protocol_case, "rule_lists": rule_lists_case, "special_angles": grid_case, "grid": grid_case, "circuits": circuit_case, "circuits_idle": circuit_case, "rules": rules_case}
 
 
 def partner_ops(n):
@@ -339,13 +380,18 @@ def run(run):
     cc.append({"ops": [{"gate": W("dagger", G("U3", 0.3, 0.4, 0.5)), "q": [0]}, {"gate": W("power", G("U3", 0.3, 0.4, 0.5), e=2), "q": [1]}], "n": 2})
     secs.append(Section("circuits", cc, circuit_case, horizon=900, desc="every placement x angle triples; length-2 circuits with unmatched partner operations in both orders"))
     secs.append(Section("rules", [{"kind": k} for k in ("empty", "AB", "BA", "U3U3", "A,U3,B", "ops")], rules_case, desc="empty rule list, rule order, idempotence"))
-    names = ["A", "B", "H", "Z", "U3", "S"]
+    names = ["A", "B", "H", "Z", "U3", "S", "D"]
     rl = [[]] + [list(p) for k in (1, 2, 3) for p in itertools.permutations(names, k)] + [["S", "S"], ["S", "U3", "S"], ["A", "A"], ["U3", "U3"]]
     if thorough:
         rl += [list(p) for p in itertools.permutations(names, 4)] + [[a, a] for a in names] + [[a, b, a] for a in names for b in names if a != b]
     rc = [{"circ": ci, "rules": r, "entry": e} for ci in range(len(RULE_CIRCUITS)) for r in rl for e in ("circuit", "list", "tuple", "iter", "gen")]
-    secs.append(Section("rule_lists", rc, rule_lists_case, horizon=300, desc="every ordered list of <= 3 distinct rules out of 6 (X->Y, Y->ZZ, H->U3, Z->TTTT, U3->rotations, RZ(a)->RZ(a/2)RZ(a/2)) x 8 circuits (idle qubits, "
+    secs.append(Section("rule_lists", rc, rule_lists_case, horizon=300, desc="every ordered list of <= 3 distinct rules out of 7 (X->Y, Y->ZZ, H->U3, Z->TTTT, U3->rotations, RZ(a)->RZ(a/2)RZ(a/2), T->nothing) x 8 circuits (idle qubits, "
                         "empty) x 5 ways of handing the operations over (circuit, list, tuple, one-shot iterator, generator)"))
+    muts = [["append", "A"], ["append", "B"], ["append", "U3"], ["front", "Z"], ["front", "H"], ["reverse", None], ["pop", None], ["clear", None], ["append", "D"]]
+    hh = [{"circ": ci, "entry": e, "hist": [muts[i] for i in combo]} for ci in (2, 3) for e in ("circuit", "list") for ln in ((2, 3, 4) if thorough else (2, 3))
+          for combo in itertools.product(range(len(muts)), repeat=ln) if muts[combo[0]][0] in ("append", "front")]
+    secs.append(Section("rule_list_histories", hh, list_history_case, horizon=300, desc="one circuit object and one rule-list object mutated in place between decompositions (every history of 2-3 "
+                        "mutations out of 9): each call applies the list as it is now"))
     secs.append(Section("protocol", [{"order": o} for o in ("filter-then-produce", "reverse-produce", "fresh-rule-produce", "interleaved")], protocol_case,
                         desc="predicate / production of one U3 rule object called in other orders than decompose_operations does, on operations with 0, 1, 2 controls (phi = -lambda)"))
     # circuits with idle qubits (declared width larger than the highest used index + 1)
